@@ -406,4 +406,76 @@ def genesisStore (g : Block) : Store :=
   applyOps [.set (.block g.id) (.blk g), .set .latest (.num g.no), .set (.byNo g.no) (.id g.id),
             .set (.stData g.root) .unit, .set (.stMark g.root) .unit] (fun _ => none)
 
+/-! ### Outside the property's quantifier: a lagging state DB
+
+The property quantifies over prefixes of the *global* sequence of durable writes. Two independent stores give
+that order only if every state-DB flush is durable before the next chain-DB write is issued. `crashLag` is the
+other case: the chain DB holds the first `k` units, the state DB has lost its units from position `s` on. The
+restart is then only required to be *fail-stop* (refuse to come up, or come up coherent): see
+`restart_state_complete`. -/
+
+def crashLag (us : List Unit) (k s : Nat) (D : Store) : Store :=
+  applyUnits (us.take s ++ ((us.take k).drop s).filter (fun u => decide (u.db = .C))) D
+
+/-! ### Blocks whose execution fails
+
+`bad i` = the execution of block `i` fails (`executeBlock` → `validatePost`: the state root / receipts root of the
+header is not reached): nothing of that block is committed. On the tip the run loop stops with the error
+(`chainProcessor.execute`); a side-branch block is stored without being executed (`chainProcessor.addBlock`); a
+reorganisation through such a block fails in the roll-forward after the blocks below it have been executed and
+committed, the state root is set back to the old best block's (memory only) and nothing else is written
+(reorg.go `reorg`: the error branch after `rollforward`). -/
+
+/-- `rollforward` over the new branch (ascending): the units of the blocks before the first one that fails, and
+whether all were executed. -/
+def rollforwardUntil (bad : Nat → Bool) : List Block → List Unit × Bool
+  | [] => ([], true)
+  | b :: bs =>
+    if bad b.id then ([], false)
+    else
+      let r := rollforwardUntil bad bs
+      (execUnits b ++ r.1, r.2)
+
+def reorgB (bad : Nat → Bool) (N : Node) (top : Block) : Option (Node × List Unit × Bool) :=
+  match gather N.D N.best.no (top.no + 1) top [] [] with
+  | none => none
+  | some (start, old, new) =>
+    let r := rollforwardUntil bad new.reverse
+    if r.2 then
+      let us := r.1 ++ swapUnits (markerOf start N.best top) old new top false
+      some ({ N with D := applyUnits us N.D, best := top, sdbRoot := top.root }, us, true)
+    else some ({ N with D := applyUnits r.1 N.D }, r.1, false)
+
+/-- The run loop when execution may fail: on the main chain a failing block stops the loop (an orphan taken from
+the pool for it is gone). -/
+def runLoopB (bad : Nat → Bool) (isMain : Bool) : Nat → Node → Block → List Unit → Option (Node × Block × List Unit × Bool)
+  | 0, _, _, _ => none
+  | fuel + 1, N, b, acc =>
+    if isMain ∧ bad b.id then some (N, b, acc, false) else
+    let (N1, us) := if isMain then connect N b else addSide N b
+    match N1.orphans.find? (fun o => o.parent = b.id) with
+    | none => some (N1, b, acc ++ us, true)
+    | some o =>
+      if b.no + 1 ≠ o.no then none else
+      runLoopB bad isMain fuel { N1 with orphans := N1.orphans.filter (fun x => x.parent ≠ b.id) } o (acc ++ us)
+
+/-- `ChainService.addBlock` when the execution of some blocks fails (the in-memory cache of errored blocks is not
+modelled: a block is fed once per process life in the C06 scenarios). `feedB (fun _ => false) = feed`
+(`feedB_valid`). -/
+def feedB (bad : Nat → Bool) (N : Node) (b : Block) : Node × FeedRes × List Unit :=
+  if (getBlock N.D b.id).isSome then (N, .ok, [])
+  else if (getBlock N.D b.parent).isNone then
+    (if N.orphans.any (fun o => o.parent = b.parent) then N else { N with orphans := N.orphans ++ [b] }, .ok, [])
+  else
+    let isMain := isMainChain N b
+    match runLoopB bad isMain (N.orphans.length + 1) N b [] with
+    | none => (N, .err, [])
+    | some (N1, last, us, ok) =>
+      if !ok then (N1, .err, us)
+      else if !isMain ∧ N1.best.no < last.no then
+        match reorgB bad N1 last with
+        | none => (N1, .err, us)
+        | some (N2, us2, ok2) => (N2, if ok2 then .ok else .err, us ++ us2)
+      else (N1, .ok, us)
+
 end Aergo.Crash
